@@ -76,7 +76,8 @@ def guarded_process(buf, piece, delivered, cpu_limit=5.0):
     signal.setitimer(signal.ITIMER_VIRTUAL, cpu_limit)
     try:
         buf.append(piece)
-        buf.process(cb)
+        # the unguarded method: this function is the watchdog here (mc.core.guard wraps Buffer.process process-wide)
+        getattr(type(buf), "_mc_orig_process", type(buf).process)(buf, cb)
         return None
     except (Livelock, Hang) as e:
         return e
